@@ -230,8 +230,8 @@ func genHandshake(c *ctx) {
 	}
 	for _, s := range scns {
 		for _, v := range ints {
-			if c.thorough() || (s.quick && quickInts[v.class]) {
-				add(s, "CFG", "bufsize", v)
+			if c.thorough() || (s.quick && quickInts[v.class]) || (s.upload && s.proto == 0 && (v.class == "-1" || v.class == "0")) {
+				add(s, "CFG", "bufsize", v) // protocol 1 has its own growth loop (sendFileData)
 			}
 			if c.thorough() || (s.name == "up-p4-b64" || s.name == "dn-p4-b64") && (v.class == "0" || v.class == "-1" || v.class == "2^62") {
 				add(s, "CFG", "timeout", v)
